@@ -30,6 +30,7 @@ CONSTANTS Sizes, MaxMsgs,
                        \*         began to help after more chunks were added - and then the receiver can use nothing of the packet.
                        \*         Without "F32" (the code now): the level byte is written with the packet and says what was done to the payload
                        \* "blind" spec mutant: the receiver ignores the level byte
+                       \* "srconce" spec mutant: every packet read by one DoInput() call is attributed to the source of the first one
           RECORD, HIST
 
 ASSUME (\A m \in MTUs : m >= PH + CH + 1) /\ FirstPID \in 0..(PIDSPACE - 1)
@@ -42,7 +43,7 @@ VARIABLES sq,    \* [Senders -> Seq([n, size])]: outgoing queue
           mtu,   \* the constructor argument maxTransferUnit (constant during a behaviour)
           last, hist
 
-vars == <<sent, delivered, pk, cnt, sq, opkt, ohl, pid, ndrop, mtu, last, hist>>
+vars == <<sent, delivered, pk, cnt, rxq, sq, opkt, ohl, pid, ndrop, mtu, last, hist>>
 
 Init == /\ AbsInit /\ NetInit
         /\ sq = [s \in Senders |-> <<>>] /\ opkt = [s \in Senders |-> <<>>] /\ ohl = [s \in Senders |-> 0] /\ pid = [s \in Senders |-> FirstPID]
@@ -110,18 +111,33 @@ Out(s, mode, lvl) ==
 \* DoInput() with one copy of packet k of sender s waiting
 \* level byte > 0: inflate (fails on a plain payload); level byte 0: parse as it is (a deflated payload gives an impossible chunk size)
 Usable(p)    == IF "blind" \in Deviations THEN ~p.z ELSE (p.hl > 0) = p.z
-Handed(s, p) == IF ~Usable(p) THEN <<>>
-                ELSE [i \in 1..Len(p.chunks) |-> [s |-> s, size |-> p.chunks[i].size, buf |-> Content(s, p.chunks[i].n, p.chunks[i].size)]]
+\* the Messages of packet p written by sender s, attributed to source address a (a = s in the code as it is)
+Handed(a, s, p) == IF ~Usable(p) THEN <<>>
+                   ELSE [i \in 1..Len(p.chunks) |-> [s |-> a, size |-> p.chunks[i].size, buf |-> Content(s, p.chunks[i].n, p.chunks[i].size)]]
+\* one DoInput() call reads the packets of `batch` one after the other
+RECURSIVE HandedBatch(_, _)
+HandedBatch(batch, i) == IF i > Len(batch) THEN <<>>
+                         ELSE Handed(IF "srconce" \in Deviations THEN batch[1].s ELSE batch[i].s, batch[i].s, pk[batch[i].s][batch[i].k]) \o HandedBatch(batch, i + 1)
 Deliver(s, k) ==
     /\ CanTake(s, k) /\ NetTake(s, k)
-    /\ delivered' = delivered \o Handed(s, pk[s][k])
-    /\ Rec([a |-> "Deliver", s |-> s, k |-> k, fault |-> Fault(s, k), dl |-> Handed(s, pk[s][k])])
+    /\ delivered' = delivered \o HandedBatch(Batch(s, k), 1)
+    /\ Rec([a |-> "Deliver", s |-> s, k |-> k, fault |-> Fault(s, k), waiting |-> Len(rxq), dl |-> HandedBatch(Batch(s, k), 1)])
+    /\ UNCHANGED <<sent, sq, opkt, ohl, pid, ndrop>>
+Arrive(s, k) ==
+    /\ CanWait(s, k) /\ NetWait(s, k)
+    /\ Rec([a |-> "Arrive", s |-> s, k |-> k, fault |-> Fault(s, k)])
+    /\ UNCHANGED <<sent, delivered, sq, opkt, ohl, pid, ndrop>>
+ReadWaiting ==
+    /\ rxq # <<>> /\ NetDrain
+    /\ delivered' = delivered \o HandedBatch(rxq, 1)
+    /\ Rec([a |-> "Drain", s |-> rxq[1].s, dl |-> HandedBatch(rxq, 1)])
     /\ UNCHANGED <<sent, sq, opkt, ohl, pid, ndrop>>
 
 \* which packet is handed over next is the network's choice
-Receive(s) == \E k \in 1..Len(pk[s]) : Deliver(s, k)
+Receive(s) == \E k \in 1..Len(pk[s]) : Deliver(s, k) \/ Arrive(s, k)
 
-Next == \E s \in Senders :
+Next == \/ ReadWaiting
+        \/ \E s \in Senders :
            \/ \E z \in Sizes : Send(s, z)
            \/ \E m \in {"all", "one", "hold"}, l \in Levels : Out(s, m, l)
            \/ Receive(s)
@@ -142,7 +158,7 @@ Due        == [s \in Senders |-> {n \in 1..Len(sent[s]) : Fits(s, n) /\ ("F32" \
 DropsOnlyTooLarge == \A s \in Senders : ndrop[s] \subseteq ((1..Len(sent[s])) \ DueStrict[s])
 AllOut == \A s \in Senders : sq[s] = <<>> /\ opkt[s] = <<>>
 Quiet  == AllOut /\ NetEmpty
-Done   == AllOut /\ (\A s \in Senders : Len(sent[s]) = MaxMsgs /\ \A k \in 1..Len(pk[s]) : ~CanTake(s, k))
+Done   == AllOut /\ rxq = <<>> /\ (\A s \in Senders : Len(sent[s]) = MaxMsgs /\ \A k \in 1..Len(pk[s]) : ~CanTake(s, k))
 PerfectInOrder     == (Faults = {}) => InOrderSoFar(Due)
 PerfectExactlyOnce == (Faults = {} /\ Quiet) => ExactlyOnceInOrder(Due)
 PerfectExactlyOnceStrict == (Faults = {} /\ Quiet) => ExactlyOnceInOrder(DueStrict)    \* the property as stated: fails with the deviation "F32"
